@@ -81,6 +81,39 @@ def metropolis (o : MOrbit K) (n : Nat) (s : Int × Bool) : Dist K (Int × Bool)
 def metropolisRandom (o : MOrbit K) (lo hi : Nat) (s : Int × Bool) : Dist K (Int × Bool) :=
   Dist.bind (uniformRange lo hi) (fun n => metropolis o n s)
 
+/-! ### Statistics of the Metropolis transitions
+
+`_sample_n_step` reports `n_step` = the loop index at which `integrator.step` raised (the number
+of steps that succeeded) or `n`, and `accept_stat` = the acceptance probability, 0 after an
+integrator error.  To express "the step that failed" the orbit is refined to single steps:
+`stepOk e` = the integrator step joining orbit points `e` and `e + 1` succeeds (in either
+direction: C02). -/
+
+structure MOrbitS (K : Type) where
+  w : Int → K
+  stepOk : Int → Bool
+
+/-- all `n` steps joining `lo … lo + n` succeed -/
+def MOrbitS.pathOk (o : MOrbitS K) (lo : Int) (n : Nat) : Bool :=
+  (List.range n).all (fun t => o.stepOk (lo + (t : Int)))
+
+def MOrbitS.toOrbit (o : MOrbitS K) : MOrbit K := ⟨o.w, o.pathOk⟩
+
+/-- Number of `integrator.step` calls that succeed before the first failure (at most `n`),
+starting at orbit point `i` in direction `fwd`: the value of `_s` in the `except` branch. -/
+def stepsTaken (o : MOrbitS K) (fwd : Bool) : Nat → Int → Nat
+  | 0, _ => 0
+  | n + 1, i =>
+    if o.stepOk (if fwd then i else i - 1) then
+      1 + stepsTaken o fwd n (if fwd then i + 1 else i - 1)
+    else 0
+
+/-- `(n_step, accept_stat, integration_error)` of `_sample_n_step(state, n, rng)`. -/
+def metropolisStats (o : MOrbitS K) (n : Nat) (s : Int × Bool) : Nat × K × Bool :=
+  let taken := stepsTaken o s.2 n s.1
+  let j := if s.2 then s.1 + n else s.1 - n
+  if taken < n then (taken, 0, true) else (n, ratio (o.w j) (o.w s.1), false)
+
 /-! ### Dynamic (NUTS-like) transitions -/
 
 inductive TTree (K : Type) where
